@@ -173,9 +173,10 @@ func TestC08Quarantine(t *testing.T) {
 			oldestLive := w.Live[0].Abs
 			newestLive := w.Live[len(w.Live)-1].Abs
 			// Detection.
+			allocFailsBefore := w.St.Alloc.NewBlockFailures
 			r := w.Get(victim.o, victim.inst)
 			detectedDespiteEnvError := false
-			if r.EnvError && status.Code(r.Err) == codes.Unavailable {
+			if !r.Found && w.St.Alloc.NewBlockFailures != allocFailsBefore {
 				msgs := w.St.ErrLog.Take()
 				if len(msgs) > 0 {
 					detectedDespiteEnvError = true // the block map logged the release
